@@ -85,7 +85,7 @@ package note
 //@     invariant [C07] seen_are_listed: forall nm string, h uint32 {seen[mk("nameHash", nm, h)]} :: has(seen, mk("nameHash", nm, h)) && seen[mk("nameHash", nm, h)] ==> LISTED(arr(n.Sigs), off(n.Sigs), len(n.Sigs), nm, h)
 //@     invariant [C07] known_line_is_listed: numSig >= 1 && err == nil ==> LISTED(arr(n.Sigs), off(n.Sigs), len(n.Sigs), name, hash)
 //@     decreases len(sigs)
-//@   uses listed_ext
+//@   uses listed_ext utf8_decode
 //@   props C07 C01 C13
 
 //@ # ---------- Sign: every new signature is made over exactly the note text, and the message starts with it ----------
